@@ -494,3 +494,130 @@ pub fn c15_cmd() -> BoxedStrategy<Cmd> {
     ]
     .boxed()
 }
+
+// ---------------------------------------------------------------------------------------
+// multi-connection histories (C07, C08, C18)
+// ---------------------------------------------------------------------------------------
+
+use crate::runner::Step;
+
+/// A compact data-command catalogue over a small key pool, all families, including commands
+/// that fail at run time (wrong type, overflow, bad index).
+pub fn mixed_data_cmd(k: BoxedStrategy<Bytes>) -> BoxedStrategy<Cmd> {
+    let m = select(vec![bs("a"), bs("b"), bs("c")]).boxed();
+    let v = select(vec![bs("v"), bs("1"), bs("10"), bs("abc"), bs("9223372036854775807"), bs("")]).boxed();
+    let i = select(vec![bs("0"), bs("1"), bs("-1"), bs("2"), bs("-2"), bs("5"), bs("abc")]).boxed();
+    prop_oneof![
+        8 => cmd3("SET", k.clone(), v.clone()),
+        4 => cmd2("GET", k.clone()),
+        3 => cmd2("INCR", k.clone()),
+        3 => cmd3("INCRBY", k.clone(), i.clone()),
+        2 => cmd3("DECRBY", k.clone(), i.clone()),
+        3 => cmd3("APPEND", k.clone(), v.clone()),
+        2 => cmd3("GETSET", k.clone(), v.clone()),
+        2 => cmd3("SETNX", k.clone(), v.clone()),
+        3 => cmd_multi("DEL", k.clone(), vec_of(k.clone(), 0, 1)),
+        2 => cmd_multi("EXISTS", k.clone(), vec_of(k.clone(), 0, 1)),
+        2 => cmd2("TYPE", k.clone()),
+        2 => cmd3("RENAME", k.clone(), k.clone()),
+        1 => cmd3("RENAMENX", k.clone(), k.clone()),
+        2 => cmd_multi("MGET", k.clone(), vec_of(k.clone(), 0, 2)),
+        2 => (k.clone(), v.clone(), k.clone(), v.clone()).prop_map(|(a, b, c, d)| vec![bs("MSET"), a, b, c, d]),
+        4 => cmd_multi("LPUSH", k.clone(), vec_of(m.clone(), 1, 3)),
+        4 => cmd_multi("RPUSH", k.clone(), vec_of(m.clone(), 1, 3)),
+        3 => cmd2("LPOP", k.clone()),
+        2 => cmd2("RPOP", k.clone()),
+        3 => cmd4("LRANGE", k.clone(), i.clone(), i.clone()),
+        2 => cmd4("LSET", k.clone(), i.clone(), m.clone()),
+        2 => cmd4("LREM", k.clone(), i.clone(), m.clone()),
+        2 => cmd4("LTRIM", k.clone(), i.clone(), i.clone()),
+        4 => cmd_multi("SADD", k.clone(), vec_of(m.clone(), 1, 3)),
+        3 => cmd_multi("SREM", k.clone(), vec_of(m.clone(), 1, 2)),
+        2 => cmd2("SMEMBERS", k.clone()),
+        2 => cmd2("SPOP", k.clone()),
+        4 => cmd4("HSET", k.clone(), m.clone(), v.clone()),
+        2 => cmd3("HGET", k.clone(), m.clone()),
+        2 => cmd3("HDEL", k.clone(), m.clone()),
+        2 => cmd4("HINCRBY", k.clone(), m.clone(), i.clone()),
+        2 => cmd2("HGETALL", k.clone()),
+        4 => cmd4("ZADD", k.clone(), select(vec![bs("1"), bs("2"), bs("-1"), bs("inf"), bs("abc")]).boxed(), m.clone()),
+        2 => cmd4("ZINCRBY", k.clone(), select(vec![bs("1"), bs("-2.5")]).boxed(), m.clone()),
+        2 => cmd3("ZREM", k.clone(), m.clone()),
+        2 => cmd2("ZPOPMIN", k.clone()),
+        2 => (k.clone(),).prop_map(|(k,)| vec![bs("ZRANGE"), k, bs("0"), bs("-1"), bs("WITHSCORES")]),
+        3 => (k.clone(), m.clone(), v.clone()).prop_map(|(k, f, x)| vec![bs("XADD"), k, bs("*"), f, x]),
+        1 => (k.clone(), select(vec![bs("1-1"), bs("5-0")]), m.clone(), v.clone()).prop_map(|(k, id, f, x)| vec![bs("XADD"), k, id, f, x]),
+        2 => cmd2("XLEN", k.clone()),
+        1 => (k.clone(),).prop_map(|(k,)| vec![bs("XTRIM"), k, bs("MAXLEN"), bs("1")]),
+        2 => cmd3("EXPIRE", k.clone(), select(vec![bs("1000"), bs("0"), bs("-1")]).boxed()),
+        1 => cmd3("PEXPIRE", k.clone(), select(vec![bs("1000000"), bs("0")]).boxed()),
+        2 => cmd2("PERSIST", k.clone()),
+        1 => cmd2("TTL", k.clone()),
+        1 => Just(vec![bs("DBSIZE")]),
+        1 => Just(vec![bs("KEYS"), bs("*")]),
+    ]
+    .boxed()
+}
+
+#[derive(Clone, Debug)]
+pub enum TxEnd {
+    Exec,
+    Discard,
+    Reconnect,
+    Nothing,
+}
+
+/// One block of a C07 history, flattened into steps.
+pub fn c07_block(nconns: usize) -> BoxedStrategy<Vec<Step>> {
+    let k = select(vec![bs("k"), bs("j"), bs("kk")]).boxed();
+    let data = mixed_data_cmd(k.clone());
+    let queued = prop_oneof![
+        30 => data.clone(),
+        1 => Just(vec![bs("PUBLISH"), bs("ch"), bs("m")]),
+        1 => (k.clone(),).prop_map(|(k,)| vec![bs("BLPOP"), k, bs("0.05")]),
+        1 => Just(vec![bs("PING")]),
+        1 => Just(vec![bs("ECHO"), bs("x")]),
+    ];
+    let end = prop_oneof![8 => Just(TxEnd::Exec), 2 => Just(TxEnd::Discard), 1 => Just(TxEnd::Reconnect), 1 => Just(TxEnd::Nothing)];
+    let tx = (0..nconns, proptest::collection::vec(queued, 0..9), proptest::collection::vec((0u8..10, 1..nconns.max(2), data.clone()), 0..3), any::<bool>(), end).prop_map(
+        move |(conn, q, inter, dump, end)| {
+            let mut steps = vec![Step::Cmd { conn, args: vec![bs("MULTI")] }];
+            for (i, c) in q.iter().enumerate() {
+                for (pos, off, oc) in &inter {
+                    if *pos as usize == i {
+                        steps.push(Step::Cmd { conn: (conn + off) % nconns, args: oc.clone() });
+                    }
+                }
+                steps.push(Step::Cmd { conn, args: c.clone() });
+            }
+            for (pos, off, oc) in &inter {
+                if *pos as usize >= q.len() {
+                    steps.push(Step::Cmd { conn: (conn + off) % nconns, args: oc.clone() });
+                }
+            }
+            if dump {
+                steps.push(Step::Dump);
+            }
+            match end {
+                TxEnd::Exec => steps.push(Step::Cmd { conn, args: vec![bs("EXEC")] }),
+                TxEnd::Discard => steps.push(Step::Cmd { conn, args: vec![bs("DISCARD")] }),
+                TxEnd::Reconnect => {
+                    steps.push(Step::Reconnect { conn });
+                    steps.push(Step::Dump);
+                }
+                TxEnd::Nothing => {}
+            }
+            steps
+        },
+    );
+    prop_oneof![
+        6 => tx,
+        3 => (0..nconns, data.clone()).prop_map(|(conn, args)| vec![Step::Cmd { conn, args }]),
+        1 => (0..nconns, select(vec![bs("EXEC"), bs("DISCARD"), bs("MULTI")])).prop_map(|(conn, n)| vec![Step::Cmd { conn, args: vec![n] }]),
+    ]
+    .boxed()
+}
+
+pub fn c07_history(nconns: usize, max_blocks: usize) -> BoxedStrategy<Vec<Step>> {
+    proptest::collection::vec(c07_block(nconns), 1..=max_blocks).prop_map(|b| b.concat()).boxed()
+}
